@@ -768,6 +768,19 @@ class AckMonitor(Monitor):
                 raise Violation("ack:missing", "%s never acknowledged 1-RTT ack-eliciting packet %d received at t=%.4f (now %.4f)" % (ep.name, ob["pn"], ob["t"], t), {"cause": cause})
         self.obligations = [ob for ob in self.obligations if not ob["met"]]
 
+    def at_end(self, sim):
+        # obligations still open when the run ends: overdue ones are violations like any other, the rest were not decided
+        for ob in self.obligations:
+            if ob["met"]:
+                continue
+            ep = sim.ep(ob["ep"])
+            if ep is None or ep.terminated or ep.conn._state.name != "CONNECTED" or ep.conn._close_pending:
+                self.exempt += 1
+                continue
+            if sim.now > ob["deadline"] + 0.05 and sim.stopped_reason != "step-cap":
+                raise Violation("ack:missing", "%s never acknowledged 1-RTT ack-eliciting packet %d received at t=%.4f (run ended at %.4f, %s)" % (ob["ep"], ob["pn"], ob["t"], sim.now, sim.stopped_reason), None)
+            self.open_at_end = getattr(self, "open_at_end", 0) + 1
+
 
 # ------------------------------------------------------------------ C13
 
